@@ -636,8 +636,58 @@ func streamBuilder(c *Ctx) {
 		}
 		c.squareCase(sc)
 	}
+	c.manyBlobCases()
 	if c.thorough {
 		c.exhaustiveSmallScope()
+	}
+}
+
+// manyBlobCases: one blob transaction paying for 128..140 one-share blobs (its packed share indexes need a
+// two-byte length prefix, its wrapped PFB spans several shares), between an ordinary transaction and a
+// one-blob transaction; the inner transaction is sized so that the wrapped PFB ends exactly on, one byte
+// before and one byte after a compact share boundary, where a one-byte size error moves a range.
+func (c *Ctx) manyBlobCases() {
+	pool := c.userNamespaces(2)
+	for rep := 0; rep < c.n(2, 12); rep++ {
+		nb := c.rng.Range(128, 140)
+		mk := func(filler int) sqCase {
+			sc := sqCase{max: 16, thr: c.rng.Pick([]int{1, 2, 64})}
+			if c.rng.Bool() {
+				sc.max = 32
+			}
+			specs := make([]blobSpec, nb)
+			for j := range specs {
+				specs[j] = c.randBlob(pool[j%2], c.rng.Range(1, 300), false)
+			}
+			sc.txs = append(sc.txs, genTx{raw: c.normalTx(20)})
+			raw := c.makeBlobTx(specs, filler)
+			btx, _, _ := tx.UnmarshalBlobTx(raw)
+			sc.txs = append(sc.txs, genTx{raw: raw, isBlob: true, inner: btx.Tx, blobs: specs})
+			one := []blobSpec{c.randBlob(pool[1], 100, false)}
+			raw2 := c.makeBlobTx(one, 10)
+			btx2, _, _ := tx.UnmarshalBlobTx(raw2)
+			sc.txs = append(sc.txs, genTx{raw: raw2, isBlob: true, inner: btx2.Tx, blobs: one})
+			sc.desc = fmt.Sprintf("max=%d thr=%d t20 b[%d blobs, filler %d] b[v0:100]", sc.max, sc.thr, nb, filler)
+			return sc
+		}
+		// measure the wrapped PFB of the many-blob transaction with a first filler
+		f0 := 300
+		probe := mk(f0)
+		b := safeBuild(rawList(probe.txs), probe.max, probe.thr)
+		fillers := []int{c.rng.Range(200, 700)}
+		if b.err == nil {
+			if w, _ := safeWPFBs(b.sq); len(w) >= 1 {
+				E := uvarintLen(len(w[0])) + len(w[0]) // end of unit 0 in the pay-for-blob stream
+				for _, d := range []int{-1, 0, 1} {
+					delta := ((474+478*4+d-E)%478 + 478) % 478
+					fillers = append(fillers, f0+delta)
+				}
+			}
+		}
+		for _, f := range fillers {
+			c.squareCase(mk(f))
+			c.dist("many-blob-tx")
+		}
 	}
 }
 
